@@ -140,6 +140,33 @@ class CdsGuidContent(Case):
         return [list(r[3]), list(r[4])]
 
 
+class TranscriptPhases(CdsGuidContent):
+    """A transcript whose CDS was described by GFF3 PHASES serialises the same as one described by the corresponding
+    FRAMES: to_dict() lists frame names (what from_dict reads them as), and the copy rebuilt from the dictionary -
+    which is what the NCBI table writer works on - has the same frames (C17: codon_start, partial marks)."""
+    props = ("C08", "C17")
+    name = "TranscriptInterval.to_dict[CDS given as phases vs frames, 2 exons]: same dictionary, frames survive the round trip"
+    func = TRANSCRIPT + ".to_dict"
+    module = "gene.transcript"
+    call = ("(lambda a, b: (a.to_dict()['cds_frames'], b.to_dict()['cds_frames'], [x.name for x in b.cds.frames], "
+            "[x.name for x in TranscriptInterval.from_dict(a.to_dict()).cds.frames], a.guid, b.guid))"
+            "(TranscriptInterval(starts, ends, strand, cds_starts=starts, cds_ends=ends, cds_frames=phases), "
+            "TranscriptInterval(starts, ends, strand, cds_starts=starts, cds_ends=ends, cds_frames=frames))")
+    ensures = {
+        "dictionary-lists-frame-names": lambda i, r: list(r[0]) == list(r[2]) and list(r[1]) == list(r[2]),
+        "frames-survive-the-round-trip": lambda i, r: list(r[3]) == list(r[2]),
+        "equal-content-equal-identifier": lambda i, r: _same_digest(r[4], r[5]),
+    }
+
+    def inputs(self, S):
+        i = super().inputs(S)
+        i.TranscriptInterval = S.cls(TRANSCRIPT)
+        return i
+
+    def observe(self, r):
+        return [list(r[0]), list(r[1]), list(r[2]), list(r[3])]
+
+
 def _same_digest(a, b):
     """two identifiers computed by digest_object are the same value: natively equal UUIDs; in the engine the digest
     is an uninterpreted function of its arguments, so 'same' means the arguments are equal term by term."""
@@ -161,6 +188,8 @@ def _deep_eq(x, y):
         return And(*[_deep_eq(x[k], y[k]) for k in x])
     if hasattr(x, "idx") and hasattr(y, "idx"):
         return enum_eq(x, y)
+    if hasattr(x, "attrs") and hasattr(y, "attrs") and "$digest_args" in x.attrs and "$digest_args" in y.attrs:
+        return _deep_eq(x.attrs["$digest_args"], y.attrs["$digest_args"])  # a digest inside a digest (child identifier)
     if hasattr(x, "items") and hasattr(x, "ranges") and hasattr(y, "items"):
         return sorted(map(str, x.items)) == sorted(map(str, y.items))
     if hasattr(x, "length") and hasattr(x, "get") and hasattr(y, "get"):
@@ -235,7 +264,7 @@ class VariantRoundTrip(Case):
     call = "VariantInterval.from_dict(v.to_dict(), par)"
     ensures = {
         "fields": lambda i, r: And(r.start == i.vs, r.end == i.ve, r.variant_type == "ins", r.variant_name == "vn",
-                                   r.variant_id == "vi", r.phase_block == 3),
+                                   r.variant_id == "vi", r.phase_block == i.pb),  # ANY phase-set number, 0 included
         "same-guid": lambda i, r: r.guid is i.v.guid,
         "parent-passed-through": lambda i, r: r._parent_or_seq_chunk_parent is i.par,
         "alt-sequence": lambda i, r: str(r.sequence) == "ACG" if not hasattr(r, "attrs") else r.sequence.sequence == "ACG",
@@ -246,19 +275,22 @@ class VariantRoundTrip(Case):
         S.assume(And(0 <= vs, vs < ve))
         par, ps, pe = chunk_parent(S)
         S.assume(And(ps <= vs, ve <= pe))
-        v = S.new(VAR, vs, ve, "ACG", "ins", 3, variant_name="vn", variant_id="vi", parent_or_seq_chunk_parent=par)
-        return NS(v=v, par=par, vs=vs, ve=ve, VariantInterval=S.cls(VAR))
+        pb = S.int("pb")
+        S.assume(pb >= 0)
+        v = S.new(VAR, vs, ve, "ACG", "ins", pb, variant_name="vn", variant_id="vi", parent_or_seq_chunk_parent=par)
+        return NS(v=v, par=par, vs=vs, ve=ve, pb=pb, VariantInterval=S.cls(VAR))
 
     def samples(self, rng):
         vs = rng.randint(2, 8)
         ve = vs + rng.randint(1, 3)
         cs = rng.randint(0, vs)
         ce = ve + rng.randint(0, 3)
-        return dict(vs=vs, ve=ve, chunk_start=cs, chunk_end=ce, chunk_seq="".join(rng.choice("ACGT") for _ in range(ce - cs)))
+        return dict(vs=vs, ve=ve, chunk_start=cs, chunk_end=ce, chunk_seq="".join(rng.choice("ACGT") for _ in range(ce - cs)),
+                    pb=rng.choice([0, 0, 1, 3, 18]))
 
     def observe(self, r):
         from pyvc.check import default_observe as o
-        return [o(r.start), o(r.end), r._parent_or_seq_chunk_parent is None]
+        return [o(r.start), o(r.end), r._parent_or_seq_chunk_parent is None, o(r.phase_block)]
 
 
 # ---- bounded: native round trips under a hash-seed sweep ----------------------------------------------------------
@@ -272,12 +304,16 @@ class CollectionParentRoundTrip(Case):
     module = "gene.collections"
     shard_depth = 3
 
-    def __init__(self, kind):
-        self.kind = kind
-        self.name = f"AnnotationCollection.from_dict(to_dict(export_parent=True))[parent: {kind}]"
+    def __init__(self, kind, via="to_dict"):
+        self.kind, self.via = kind, via
+        # via 'pickle state': the state handed to pickle (__getstate__) must rebuild the same collection, parent
+        # included (__setstate__ re-initialises the object from from_dict(state))
+        src = "col.to_dict(export_parent=True)" if via == "to_dict" else "col.__getstate__()"
+        self.name = (f"AnnotationCollection.from_dict(to_dict(export_parent=True))[parent: {kind}]" if via == "to_dict"
+                     else f"AnnotationCollection pickle state (__getstate__) rebuilds the collection[parent: {kind}]")
         self.call = ("(lambda c: (c._parent_or_seq_chunk_parent, c.start, c.end, "
                      "[g.gene_id for g in c.genes], c.chunk_relative_location))"
-                     "(AnnotationCollection.from_dict(col.to_dict(export_parent=True)))")
+                     f"(AnnotationCollection.from_dict({src}))")
         self.ensures = {
             "parent-restored": lambda i, r: _parent_same(i, r[0]),
             "bounds-and-members": lambda i, r: And(r[1] == i.lo, r[2] == i.hi, list(r[3]) == ["g0"]),
@@ -584,6 +620,8 @@ class NativeRoundTrips(Case):
 
 
 CASES = [TranscriptRoundTrip(1, False), TranscriptRoundTrip(2, False), TranscriptRoundTrip(1, True), VariantRoundTrip(),
-         NativeRoundTrips(), CdsGuidContent(), ParentToDict(), GuidSensitivity(), DigestOrderIndependence()]
+         NativeRoundTrips(), CdsGuidContent(), TranscriptPhases(), ParentToDict(), GuidSensitivity(), DigestOrderIndependence()]
 CASES += [CollectionParentRoundTrip(k) for k in ("untyped id only", "typed chromosome, no sequence",
                                                  "whole chromosome with sequence", "sequence chunk of either strand")]
+CASES += [CollectionParentRoundTrip(k, via="pickle state") for k in ("untyped id only", "typed chromosome, no sequence",
+                                                                      "whole chromosome with sequence")]
